@@ -5,5 +5,5 @@ cd /verif
 mkdir -p /tmp/final_pass
 ids=$(cat mc/ready.txt)
 for seed in ${@:-0 2 1}; do
-  echo "$ids" | xargs -P 2 -I{} bash -c "VERIF_SEED=$seed VERIF_JOBS=\${VERIF_JOBS:-8} ./check {} > /tmp/final_pass/{}_$seed.log 2>&1; echo \"{} seed=$seed rc=\$? \$(grep -c '^VIOLATION' /tmp/final_pass/{}_$seed.log) violations \$(grep -o 'cap_hit=[A-Za-z]* wall=[0-9.]*s' /tmp/final_pass/{}_$seed.log | tail -1)\""
+  echo "$ids" | xargs -P ${PAR:-1} -I{} bash -c "VERIF_SEED=$seed ./check {} > /tmp/final_pass/{}_$seed.log 2>&1; echo \"{} seed=$seed rc=\$? \$(grep -c '^VIOLATION' /tmp/final_pass/{}_$seed.log) violations \$(grep -o 'cap_hit=[A-Za-z]* wall=[0-9.]*s' /tmp/final_pass/{}_$seed.log | tail -1)\""
 done
